@@ -76,10 +76,19 @@ pub fn c03(tier: &str, seed: u64, meta: &str) -> Report {
             let wd: String = (0..wl).map(|_| *rng.pick(&"abcdefghijklmnopqrstuvwxyzABCDEGHIJKLMNORSTUZ0123456789".chars().collect::<Vec<_>>())).collect();
             (mk(&mut rng), wd, mk(&mut rng))
         } else if i < n_a + n_a2 + n_b {
+            // a quarter: dictionary-dense stems + known suffixes typed key by key (the memo of the prefixes makes lists of
+            // twenty and more candidates, the transliteration ranks last among them), some wrapped in punctuation
+            if rng.chance(1, 4) {
+                let stems = ["soti", "stte", "kori", "bola", "kotha", "desh", "ami", "manush", "bidyut", "sesh", "shob", "din", "rong", "mon", "jol"];
+                let t = if rng.chance(1, 3) { word_pool(pr, &mut rng, 1).pop().unwrap_or_else(|| "soti".into()) } else { format!("{}{}", rng.pick(&stems), if rng.chance(1, 3) { "" } else { rng.pick(&pr.suffix_keys).as_str() }) };
+                let (a, b) = if rng.chance(1, 4) { ("(", ").") } else { ("", "") };
+                (String::new(), format!("{}{}{}", a, t, b), String::new())
+            } else {
             // arbitrary strings over the 94 typeable characters
             let mx = if rng.chance(1, 5) { 12 } else { 4 };
             let n = 1 + rng.below(mx);
             (String::new(), (0..n).map(|_| if rng.chance(1, 3) { *rng.pick(pchars) } else { *rng.pick(typeable) }).collect(), String::new())
+            }
         } else {
             (String::new(), "a".repeat(if thorough { 4000 } else { 1400 }), ").".into())
         };
@@ -123,7 +132,7 @@ pub fn c03(tier: &str, seed: u64, meta: &str) -> Report {
             }
         }
     });
-    rep.extra.insert("rule".into(), json!(format!("suggestions off: {} words x ALL pairs of (empty or one of the 27 punctuation characters) leading/trailing (exhaustive), {} random words with up to 3 punctuation characters on each side, compared with okkhor called directly on the three parts; suggestions on: {} strings over the 94 typeable characters and one very long word, the transliteration (curled when smart quotes apply) must be a candidate; option sets sampled from all combinations; non-trivial = wrapped text / more than one candidate", words.len(), n_a2, n_b)));
+    rep.extra.insert("rule".into(), json!(format!("suggestions off: {} words x ALL pairs of (empty or one of the 27 punctuation characters) leading/trailing (exhaustive), {} random words with up to 3 punctuation characters on each side, compared with okkhor called directly on the three parts; suggestions on: {} texts (three quarters strings over the 94 typeable characters, one quarter dictionary-dense stems + suffix keys typed key by key so that lists of twenty and more candidates occur) and one very long word, the transliteration (curled when smart quotes apply) must be a candidate; option sets sampled from all combinations; non-trivial = wrapped text / more than one candidate", words.len(), n_a2, n_b)));
     rep
 }
 
